@@ -1,4 +1,4 @@
-CONSTANTS Hosts <- H4  Weights <- WOne  StratSet <- SRR  WtSet <- OnlyFalse  RefreshLists <- Lists3  Codes <- C1
+CONSTANTS Hosts <- H4  Types <- TStatic  Weights <- WOne  StratSet <- SRR  WtSet <- OnlyFalse  RefreshLists <- Lists3  Codes <- C1
 SPECIFICATION Spec
 INVARIANTS TypeOK SelectsMember ErrorIffNoneEligible NoneEligibleMeans Rotation WeightedCycle CycleCoversAll
 CHECK_DEADLOCK FALSE
